@@ -32,6 +32,9 @@ class MainSampler:
             yield self.epoch * self.N + i
 
 
+MainSampler.effective_length = property(lambda self: 3 * self.N)  # what rank-split kappadata samplers expose: the GLOBAL length
+
+
 class PlainMainSampler:
     """No set_epoch attribute at all (like torch's SequentialSampler); exposes `dataset` instead of data_source."""
 
